@@ -258,10 +258,12 @@ func c04RunQuery(r *index.Reader, convs map[string]index.ConverterAccess, ref []
 // c04Unsupported: engine errors that are documented limits, not outcomes.
 func c04Unsupported(err error) bool {
 	m := err.Error()
-	for _, s := range []string{"all data conditions must have the same converter name", "not found", "not defined", "already seen", "SubQueries not yet fully supported"} {
-		if strings.Contains(m, s) {
-			return true
-		}
+	switch {
+	case strings.Contains(m, "all data conditions must have the same converter name"),
+		strings.HasPrefix(m, "converter ") && strings.HasSuffix(m, " not found"),
+		strings.HasPrefix(m, "variable ") && (strings.HasSuffix(m, " not defined") || strings.HasSuffix(m, " already seen")),
+		strings.Contains(m, "SubQueries not yet fully supported"):
+		return true
 	}
 	return false
 }
@@ -790,7 +792,12 @@ func (g *c04Gen) chain(idx int) [2]*c04Elem {
 		}
 		return ps
 	})
-	use := g.elem(func() []c04Piece {
+	return [2]*c04Elem{def, g.user(v)}
+}
+
+// user draws an element that references the given variables (in this order).
+func (g *c04Gen) user(vars ...string) *c04Elem {
+	return g.elem(func() []c04Piece {
 		var ps []c04Piece
 		switch k := g.uni(10, "use-pre"); {
 		case g.cfg.open[c04FindPrefixLeak]:
@@ -805,9 +812,14 @@ func (g *c04Gen) chain(idx int) [2]*c04Elem {
 		case k < 7:
 			ps = append(ps, g.atom(c04Atoms))
 		}
-		ps = append(ps, c04Piece{kind: c04PRef, name: v})
-		if g.chance(15, "use-twice") {
+		for i, v := range vars {
+			if i > 0 && g.chance(50, "use-mid") {
+				ps = append(ps, g.lit(1, 1))
+			}
 			ps = append(ps, c04Piece{kind: c04PRef, name: v})
+			if g.chance(15, "use-twice") {
+				ps = append(ps, c04Piece{kind: c04PRef, name: v})
+			}
 		}
 		switch k := g.uni(10, "use-post"); {
 		case k < 5:
@@ -817,7 +829,6 @@ func (g *c04Gen) chain(idx int) [2]*c04Elem {
 		}
 		return ps
 	})
-	return [2]*c04Elem{def, use}
 }
 
 // ---------------------------------------------------------------------------------------------
@@ -847,7 +858,7 @@ func (f c04Filter) dir(rt *rapid.T, label string) int {
 
 type c04Pop struct {
 	elems   []*c04Elem
-	chains  [][2]*c04Elem
+	chains  [][]*c04Elem // definers followed by the element that references their variables
 	queries []*c04Query
 	world   c04World
 }
@@ -895,11 +906,20 @@ func (g *c04Gen) query(p *c04Pop) *c04Query {
 		used := map[*c04Elem]bool{}
 		if l >= 2 && len(p.chains) > 0 && g.chance(55, "usechain") {
 			ch := p.chains[g.uni(len(p.chains), "chain")]
-			i := g.uni(l-1, "defpos")
-			j := i + 1 + g.uni(l-1-i, "usepos")
-			cond[i] = c04Filter{e: ch[0], key: g.key(ch[0])}
-			cond[j] = c04Filter{e: ch[1], key: g.key(ch[1])}
-			used[ch[0]], used[ch[1]] = true, true
+			if len(ch) == 3 {
+				// two definers, then the element using both variables
+				cond = make([]c04Filter, 3)
+				for i, e := range ch {
+					cond[i] = c04Filter{e: e, key: g.key(e)}
+					used[e] = true
+				}
+			} else {
+				i := g.uni(l-1, "defpos")
+				j := i + 1 + g.uni(l-1-i, "usepos")
+				cond[i] = c04Filter{e: ch[0], key: g.key(ch[0])}
+				cond[j] = c04Filter{e: ch[1], key: g.key(ch[1])}
+				used[ch[0]], used[ch[1]] = true, true
+			}
 		}
 		for i := range cond {
 			if cond[i].e != nil {
@@ -1101,8 +1121,16 @@ func c04Prop(rt *rapid.T, c *vlib.Case, cfg c04Cfg) {
 	}
 	for i, n := 0, g.uni(3, "nchains"); i < n; i++ {
 		ch := g.chain(i + 1)
-		p.chains = append(p.chains, ch)
+		p.chains = append(p.chains, ch[:])
 		p.elems = append(p.elems, ch[0])
+	}
+	if len(p.chains) == 2 && g.chance(50, "twovars") {
+		d1, d2 := p.chains[0][0], p.chains[1][0]
+		if g.chance(50, "twovars-order") {
+			p.chains = append(p.chains, []*c04Elem{d1, d2, g.user("v1", "v2")})
+		} else {
+			p.chains = append(p.chains, []*c04Elem{d2, d1, g.user("v1", "v2")})
+		}
 	}
 	for i, n := 0, 2+g.uni(4, "nqueries"); i < n; i++ {
 		p.queries = append(p.queries, g.query(p))
@@ -1219,6 +1247,9 @@ func c04Prop(rt *rapid.T, c *vlib.Case, cfg c04Cfg) {
 				}
 				if len(f.e.refs) > 0 {
 					labels["variable-use"] = true
+				}
+				if len(f.e.refs) > 1 && f.e.refs[0] != f.e.refs[len(f.e.refs)-1] {
+					labels["variable-use-two-variables"] = true
 				}
 				if len(f.e.defs) > 0 {
 					labels["named-capture"] = true
@@ -1493,12 +1524,4 @@ func TestVerifC04Fixed(t *testing.T) {
 		}
 		return "", nil
 	})
-}
-
-func TestVerifC04Debug(t *testing.T) {
-	for n, cs := range c04FixedCases() {
-		for _, fc := range cs {
-			t.Logf("%s %s => %s", n, fc.query, c04Manual(fc.w, fc.query))
-		}
-	}
 }
